@@ -507,10 +507,31 @@ func (g *c05Group) write(via string) *c05Fail {
 			return &c05Fail{Kind: "harness_no_follower", Tool: true}
 		}
 		target = fs[0]
-	case "Wi":
+	case "Wi", "Wj":
 		g.router.mu.Lock()
 		g.router.cut[l.id] = true
 		g.router.mu.Unlock()
+	}
+	if via == "Wj" {
+		// several batches to the cut-off leader: its log then ends in c05StaleEntries entries that never reach a quorum. With one
+		// (Wi) the index is always taken by the next leader's empty entry; every change of leadership that follows (election,
+		// transfer back to the catalogue's master) costs one more empty entry, so it takes more stale entries than leader
+		// changes for a REAL entry of a later leader to overwrite a discarded one.
+		for k := 1; k < c05StaleEntries; k++ {
+			id0 := len(g.writes) + 1
+			w0 := &c05Write{ID: id0, Via: via, Pts: vWriteMenu[vWriteIndex(c05Menu[(id0-1)%len(c05Menu)])].Gen(id0), Leader: l.id}
+			g.writes = append(g.writes, w0)
+			tail0, err := c05Tail(target, w0.Pts)
+			if err != nil {
+				return &c05Fail{Kind: "harness_marshal", Detail: err.Error(), Tool: true}
+			}
+			if err = target.eng.WriteToRaft(c05DB, defaultRp, uint32(target.id), tail0); err == nil {
+				w0.Acked = true
+			} else {
+				w0.Err = err.Error()
+			}
+			g.logf("write %d via %s (%d of %d) to replica %d: acked=%v %s", id0, via, k, c05StaleEntries, target.id, w0.Acked, w0.Err)
+		}
 	}
 	id := len(g.writes) + 1
 	w := &c05Write{ID: id, Via: via, Pts: vWriteMenu[vWriteIndex(c05Menu[(id-1)%len(c05Menu)])].Gen(id), Leader: l.id}
@@ -529,7 +550,7 @@ func (g *c05Group) write(via string) *c05Fail {
 		w.Err = err.Error()
 	}
 	g.logf("write %d via %s to replica %d (leader %d): acked=%v after %v %s", id, via, target.id, l.id, w.Acked, took, w.Err)
-	if via == "Wi" {
+	if via == "Wi" || via == "Wj" {
 		// The cut lasts until the connected majority has a leader of its own (whatever the write call did meanwhile),
 		// so the outcome does not depend on election jitter: the old leader is deposed and its uncommitted entry dropped.
 		var nl *c05Replica
@@ -556,7 +577,7 @@ func (g *c05Group) write(via string) *c05Fail {
 		// the connection is back: let a heartbeat round pass so that the deposed leader learns the new term
 		time.Sleep(2 * c05Tick)
 		synctest.Wait()
-		g.logf("Wi: replica %d was cut off until replica %d led the others", l.id, nl.id)
+		g.logf("%s: replica %d was cut off until replica %d led the others", via, l.id, nl.id)
 		return nil // an acknowledgement given meanwhile is judged by the state oracle: the write must survive
 	}
 	if !w.Acked {
@@ -570,7 +591,7 @@ func (g *c05Group) apply(ev string) *c05Fail {
 	g.evNo++
 	defer c05Progress.Add(1)
 	switch ev {
-	case "W", "Wf", "Wi":
+	case "W", "Wf", "Wi", "Wj":
 		if f := g.write(ev); f != nil {
 			return f
 		}
@@ -1029,7 +1050,7 @@ func c05Sequences(depth int, alphabet map[string]bool) [][]string {
 		if dead {
 			evs = []string{"W", "Wf", "R", "Fl", "Ff", "T", "E"}
 		} else {
-			evs = []string{"W", "Wf", "Wi", "Kl", "Kf", "Kg", "Fl", "Ff", "Fg", "T", "E"}
+			evs = []string{"W", "Wf", "Wi", "Wj", "Kl", "Kf", "Kg", "Fl", "Ff", "Fg", "T", "E"}
 		}
 		for _, ev := range evs {
 			if !alphabet[ev] {
@@ -1044,7 +1065,7 @@ func c05Sequences(depth int, alphabet map[string]bool) [][]string {
 				d, a = true, true
 			case "R":
 				d = false
-			case "Wf", "Wi", "Ff", "Fg", "Fl":
+			case "Wf", "Wi", "Wj", "Ff", "Fg", "Fl":
 				a = true
 			}
 			rec(append(prefix, ev), d, a)
@@ -1062,9 +1083,12 @@ func c05Alphabet(names string) map[string]bool {
 	return m
 }
 
+// c05StaleEntries: number of batches event Wj sends to the cut-off leader
+const c05StaleEntries = 5
+
 const (
 	c05AlphaBase = "W Wi Kl Kf R Fl Ff T E"
-	c05AlphaFull = "W Wf Wi Kl Kf Kg R Fl Ff Fg T E"
+	c05AlphaFull = "W Wf Wi Wj Kl Kf Kg R Fl Ff Fg T E"
 )
 
 func TestVerifC05(t *testing.T) {
